@@ -63,7 +63,11 @@ func genCount24(t *rapid.T, label string) uint32 {
 }
 
 func genC06Op(t *rapid.T) c06Op {
-	switch k := rapid.IntRange(0, 19).Draw(t, "kind"); {
+	switch k := rapid.IntRange(0, 21).Draw(t, "kind"); {
+	case k >= 20:
+		// the UE RECEIVES a downlink message in between (protected by a conformant AMF under the same keys, header
+		// type 1..4 — types 3/4 are what a Security Mode Command carries); uplink counting goes on regardless
+		return c06Op{Op: "recv", HT: uint8(rapid.IntRange(1, 4).Draw(t, "dl_ht")), DL: uint32(rapid.IntRange(1, 3).Draw(t, "dl_step"))}
 	case k == 0:
 		m := genULMsg(t, "")
 		return c06Op{Op: "plain", Msg: &m, NewCtx: rapid.Bool().Draw(t, "ignored_flag")}
@@ -180,6 +184,38 @@ func c06Oracle(c c06Case) (v ev.Verdict) {
 			pendingRekey = true
 			cls["op:rekey"] = true
 			cls[fmt.Sprintf("alg NIA%d/NEA%d", op.IA, op.EA)] = true
+		case "recv":
+			if op.HT < 1 || op.HT > 4 || pendingRekey {
+				// (after a re-keying the UE first has to take the new context into use with its next uplink message)
+				continue
+			}
+			cnt := (dl + op.DL) & 0xffffff
+			if refsec.NewContext(op.HT) {
+				cnt = 0
+			}
+			if uint8(cnt) < uint8(dl) && !refsec.NewContext(op.HT) && cnt>>8 == dl>>8 {
+				continue
+			}
+			plainDL := []byte{0x7e, 0x00, 0x64, 0x6f} // 5GMM STATUS, cause #111
+			pdu, perr := ctx.Protect(op.HT, cnt, refsec.DirDownlink, plainDL)
+			if perr != nil {
+				return fail(i, "harness:protect", "reference AMF: %v", perr)
+			}
+			ulBefore := ue.ULCount.Get()
+			var m *nas.Message
+			var derr error
+			if e, site := ev.Guard(func() error { m, derr = tglib.NASDecode(ue, nas.GetSecurityHeaderType(pdu), pdu); return nil }); site != "" {
+				return fail(i, "recv:panic:"+site, "NASDecode panicked: %v", e)
+			}
+			if derr != nil || m == nil {
+				// whether the downlink message is recovered is C10's business; here only the uplink side matters
+				cls["op:recv(not recovered: see C10)"] = true
+			}
+			if g := ue.ULCount.Get(); g != ulBefore {
+				return fail(i, "ulcount-changed-by-receiving", "receiving a downlink message (header type %d) changed the UL NAS COUNT from %#06x to %#06x", op.HT, ulBefore, g)
+			}
+			dl = ue.DLCount.Get() // downlink counting is C10's claim; the model follows the UE here
+			cls[fmt.Sprintf("op:recv ht%d", op.HT)] = true
 		case "plain", "send":
 			if op.Msg == nil {
 				v.Skip = true
